@@ -570,6 +570,9 @@ func (svr *StrictServerImpl) loadCsvTrustMatrix(
 		}
 		entries = append(entries, sparse.CooEntry{Row: i, Column: j, Value: v})
 	}
+	if size == 0 {
+		return nil, errors.New("empty trust matrix CSV")
+	}
 	return sparse.NewCSRMatrix(size, size, entries, false), nil
 }
 
